@@ -456,8 +456,29 @@ impl Driver {
         }
     }
 
+    /// Queue the multishot poll on the notifier eventfd if it is not armed.
+    fn arm_notifier(&mut self) -> io::Result<()> {
+        if self.flags.contains(DriverFlags::NEED_PUSH_NOTIFIER) {
+            #[allow(clippy::useless_conversion)]
+            self.push_raw(
+                PollAdd::new(Fd(self.notifier.as_raw_fd()), libc::POLLIN as _)
+                    .multi(true)
+                    .build()
+                    .user_data(Self::NOTIFY)
+                    .into(),
+            )?;
+            self.flags.remove(DriverFlags::NEED_PUSH_NOTIFIER);
+            #[cfg(compio_verif)]
+            crate::verif::emit(crate::verif::NOTIFIER_ARMED, 0, 0);
+        }
+        Ok(())
+    }
+
     pub fn flush(&mut self) -> bool {
-        let succeed = self.submit_auto(Some(Duration::ZERO), false).is_ok();
+        // An external event loop waits on the ring fd after `flush`: the notifier
+        // must be armed by then, or a wake from another thread is never seen.
+        let armed = self.arm_notifier().is_ok();
+        let succeed = armed && self.submit_auto(Some(Duration::ZERO), false).is_ok();
         // If submission failed, return true to let the driver wake up immediately.
         !succeed | self.notifier.reset()
     }
@@ -475,19 +496,7 @@ impl Driver {
         #[cfg(compio_verif)]
         crate::verif::sched_point(1);
 
-        if self.flags.contains(DriverFlags::NEED_PUSH_NOTIFIER) {
-            #[allow(clippy::useless_conversion)]
-            self.push_raw(
-                PollAdd::new(Fd(self.notifier.as_raw_fd()), libc::POLLIN as _)
-                    .multi(true)
-                    .build()
-                    .user_data(Self::NOTIFY)
-                    .into(),
-            )?;
-            self.flags.remove(DriverFlags::NEED_PUSH_NOTIFIER);
-            #[cfg(compio_verif)]
-            crate::verif::emit(crate::verif::NOTIFIER_ARMED, 0, 0);
-        }
+        self.arm_notifier()?;
 
         self.submit_auto(timeout, need_wait)?;
 
